@@ -2,7 +2,10 @@
    that can underflow"): the pinned code tested signs through the products fa*fb > 0, fm*fa >= 0 and
    fpre*fcur < 0.  For |f| below about 1e-162 the product underflows to (-)0.0.  This file keeps the
    faithful model of the PINNED (product) form and the machine-checked witness; Model.v follows the
-   repaired source. *)
+   repaired source.
+   Second finding (repaired by commit 6bb6da5 "fix: brentq must not divide by an underflowed denominator"):
+   the inverse-quadratic step divided by dblk*dpre*(fblk-fpre) unguarded; for |f| around 1e-187 that product
+   underflows to 0 and Numba's Python error model raised ZeroDivisionError on a valid bracket. *)
 From Coq Require Import ZArith List Bool PrimFloat.
 From QE Require Import Base.Num C17.Model.
 Import ListNotations.
@@ -54,19 +57,59 @@ Definition bq_rebracket_old (s : @bq T) : @bq T :=
           spre := d; scur := d |}
   else s.
 
-Fixpoint brentq_loop_old (fuel : nat) (itr : Z) (s : @bq T) (xtol rtol : T) (fc : Z) : T * Z * Z * bool :=
+(* pinned step selection: the last division is unguarded *)
+Definition bq_steps_old (s : @bq T) (delta sbis : T) : option (T * T) :=
+  if nltb delta (nabs (spre s)) && nltb (nabs (fcur s)) (nabs (fpre s)) then
+    let stry :=
+      if neqb (xpre s) (xblk s)
+      then chkdiv (nmul (nopp (fcur s)) (nsub (xcur s) (xpre s))) (nsub (fcur s) (fpre s))
+      else
+        match chkdiv (nsub (fpre s) (fcur s)) (nsub (xpre s) (xcur s)) with
+        | None => None
+        | Some dpre =>
+          match chkdiv (nsub (fblk s) (fcur s)) (nsub (xblk s) (xcur s)) with
+          | None => None
+          | Some dblk =>
+            chkdiv (nmul (nopp (fcur s)) (nsub (nmul (fblk s) dblk) (nmul (fpre s) dpre)))
+                   (nmul (nmul dblk dpre) (nsub (fblk s) (fpre s)))
+          end
+        end in
+    match stry with
+    | None => None
+    | Some stry =>
+      if nltb (nmul ntwo (nabs stry)) (nmin (nabs (spre s)) (nsub (nmul nthree (nabs sbis)) delta))
+      then Some (scur s, stry) else Some (sbis, sbis)
+    end
+  else Some (sbis, sbis).
+
+Definition bq_advance_old (s : @bq T) (delta sbis : T) : option (@bq T) :=
+  match bq_steps_old s delta sbis with
+  | None => None
+  | Some (sp, sc) =>
+    let xc := if nltb delta (nabs sc) then nadd (xcur s) sc
+              else nadd (xcur s) (if nltb nzero sbis then delta else nopp delta) in
+    Some {| xpre := xcur s; xcur := xc; xblk := xblk s; fpre := fcur s; fcur := f xc; fblk := fblk s;
+            spre := sp; scur := sc |}
+  end.
+
+(* rebr = bq_rebracket_old: pinned code; rebr = bq_rebracket: code after the first repair only *)
+Fixpoint brentq_loop_old (rebr : @bq T -> @bq T) (fuel : nat) (itr : Z) (s : @bq T) (xtol rtol : T) (fc : Z)
+  : option (T * Z * Z * bool) :=
   match fuel with
-  | O => (nzero, fc, itr - 1, false)%Z
+  | O => Some (nzero, fc, itr - 1, false)%Z
   | S k =>
-    let s2 := bq_swap (bq_rebracket_old s) in
+    let s2 := bq_swap (rebr s) in
     let delta := bq_delta s2 xtol rtol in
     let sbis := bq_sbis s2 in
     if neqb (fcur s2) nzero || nltb (nabs sbis) delta
-    then (xcur s2, fc, itr + 1, true)%Z
-    else brentq_loop_old k (itr + 1)%Z (bq_advance f s2 delta sbis) xtol rtol (fc + 1)%Z
+    then Some (xcur s2, fc, itr + 1, true)%Z
+    else match bq_advance_old s2 delta sbis with
+         | None => None
+         | Some s3 => brentq_loop_old rebr k (itr + 1)%Z s3 xtol rtol (fc + 1)%Z
+         end
   end.
 
-Definition brentq_old (a b xtol rtol : T) (maxiter : Z) (disp : bool) : outcome T :=
+Definition brentq_old (pinned : bool) (a b xtol rtol : T) (maxiter : Z) (disp : bool) : outcome T :=
   if nleb xtol nzero then ErrArg
   else if (maxiter <? 1)%Z then ErrArg
   else
@@ -74,11 +117,11 @@ Definition brentq_old (a b xtol rtol : T) (maxiter : Z) (disp : bool) : outcome 
     let xc := nmul b none_ in
     let fp_ := f xp in
     let fc_ := f xc in
-    match bisect_interval_old xp xc fp_ fc_ with
+    match (if pinned then bisect_interval_old xp xc fp_ fc_ else bisect_interval xp xc fp_ fc_) with
     | None => ErrSign
     | Some (root, true) => Res root 2 0 true
     | Some (_, false) =>
-      finish disp (brentq_loop_old (Z.to_nat maxiter) 0
+      finish_opt disp (brentq_loop_old (if pinned then bq_rebracket_old else bq_rebracket) (Z.to_nat maxiter) 0
         {| xpre := xp; xcur := xc; xblk := nzero; fpre := fp_; fcur := fc_; fblk := nzero;
            spre := nzero; scur := nzero |} xtol rtol 2)
     end.
@@ -104,6 +147,17 @@ Proof. vm_compute. repeat split. Qed.
 
 Lemma brentq_product_underflow_refuted :
   PrimFloat.ltb (tiny_f 0) 0 = true /\ PrimFloat.ltb 0 (tiny_f 3) = true /\
-  is_conv_root (brentq_old tiny_f 0 3 xtol_d rtol_d 100 true) 0 0 = true /\
+  is_conv_root (brentq_old tiny_f true 0 3 xtol_d rtol_d 100 true) 0 0 = true /\
   is_conv_root (brentq tiny_f 0 3 xtol_d rtol_d 100 true) 0x1.ffffffffp-1 0x1.00000001p+0 = true.
+Proof. vm_compute. repeat split. Qed.
+
+(* witness of the second finding: f(x) = 2.298e-187 (x+3)(x+0.5)(x-2.375) on [-6, 9.375], xtol = 1e-4 *)
+Definition tiny_cubic (x : float) : float :=
+  (((0x1p-620 * (x - (-3))) * (x - (-0.5))) * (x - 2.375))%float.
+Definition is_zero_div (o : outcome float) : bool := match o with ErrZeroDiv => true | _ => false end.
+
+Lemma brentq_zero_division_refuted :
+  PrimFloat.ltb (tiny_cubic (-6)) 0 = true /\ PrimFloat.ltb 0 (tiny_cubic 9.375) = true /\
+  is_zero_div (brentq_old tiny_cubic false (-6) 9.375 0x1.a36e2eb1c432dp-14 rtol_d 100 true) = true /\
+  is_conv_root (brentq tiny_cubic (-6) 9.375 0x1.a36e2eb1c432dp-14 rtol_d 100 true) (-6) 9.375 = true.
 Proof. vm_compute. repeat split. Qed.
